@@ -124,4 +124,95 @@ theorem swrLoop_spec (n : Nat) : ∀ (idxs : List Nat) (j : Nat) (pool : List Na
       · obtain ⟨t', h1, _, h3⟩ := hmem' x hx'
         exact ⟨t', h1, h3⟩
 
+/-! ### every arrangement is reached by exactly one index stream -/
+
+/-- every live entry other than the one just output stays live after the step -/
+theorem pool_step_mem' (n L : Nat) (pool : List Nat) (idx : Nat) (hL : 0 < L) (hidx : idx < L)
+    (h : PoolInv n L pool) (t' : Nat) (ht' : t' < L) (hne : t' ≠ idx) :
+    ∃ t, t < L - 1 ∧ (pool.set idx (pool.getD (L - 1) 0)).getD t 0 = pool.getD t' 0 := by
+  obtain ⟨hlen, hLn, _, _⟩ := h
+  have hil : idx < pool.length := by omega
+  by_cases hlast : t' = L - 1
+  · refine ⟨idx, by omega, ?_⟩
+    rw [getD_set_nat _ _ _ _ hil, if_pos rfl, hlast]
+  · refine ⟨t', by omega, ?_⟩
+    rw [getD_set_nat _ _ _ _ hil, if_neg hne]
+
+/-- **Surjectivity of the loop.** Every duplicate-free list of live pool entries is the output of
+    some index stream that satisfies the guard. -/
+theorem swrLoop_surj (n : Nat) : ∀ (out : List Nat) (j : Nat) (pool : List Nat),
+    PoolInv n (n - j) pool → j + out.length ≤ n → out.Nodup →
+    (∀ x ∈ out, ∃ t, t < n - j ∧ pool.getD t 0 = x) →
+    ∃ idxs : List Nat, idxs.length = out.length ∧
+      (∀ t (h : t < idxs.length), idxs[t] < n - (j + t)) ∧ swrLoop n j pool idxs = out := by
+  intro out
+  induction out with
+  | nil => intro j pool _ _ _ _; exact ⟨[], rfl, by intro t h; simp at h, rfl⟩
+  | cons x rest ih =>
+    intro j pool hinv hlen hnd hmem
+    have hL : 0 < n - j := by simp at hlen; omega
+    obtain ⟨idx, hi, hx⟩ := hmem x (by simp)
+    have hinv' : PoolInv n (n - (j + 1)) (pool.set idx (pool.getD (n - j - 1) 0)) := by
+      have := poolInv_step n (n - j) pool idx hL hi hinv
+      rwa [show n - j - 1 = n - (j + 1) from by omega] at this ⊢
+    have hnd' := (List.nodup_cons.1 hnd).2
+    have hxn : x ∉ rest := (List.nodup_cons.1 hnd).1
+    obtain ⟨idxs, hl, hg, he⟩ := ih (j + 1) _ hinv' (by simp at hlen; omega) hnd' (by
+      intro y hy
+      obtain ⟨t', ht', hyt⟩ := hmem y (List.mem_cons_of_mem _ hy)
+      have hne : t' ≠ idx := by
+        intro e; subst e; rw [hx] at hyt; exact hxn (hyt ▸ hy)
+      obtain ⟨t, ht, htt⟩ := pool_step_mem' n (n - j) pool idx hL hi hinv t' ht' hne
+      exact ⟨t, by omega, by rw [htt]; exact hyt⟩)
+    refine ⟨idx :: idxs, by simp [hl], ?_, ?_⟩
+    · intro t ht
+      cases t with
+      | zero => simpa using hi
+      | succ t =>
+        simp only [List.getElem_cons_succ]
+        have := hg t (by simpa using ht)
+        rw [show n - (j + (t + 1)) = n - (j + 1 + t) from by omega]; exact this
+    · show pool.getD idx 0 :: swrLoop n (j + 1) _ idxs = x :: rest
+      rw [he, hx]
+
+/-- **Injectivity of the loop.** Two index streams that satisfy the guard and give the same output
+    are equal. -/
+theorem swrLoop_inj (n : Nat) : ∀ (a b : List Nat) (j : Nat) (pool : List Nat),
+    PoolInv n (n - j) pool → a.length = b.length → j + a.length ≤ n →
+    (∀ t (h : t < a.length), a[t] < n - (j + t)) → (∀ t (h : t < b.length), b[t] < n - (j + t)) →
+    swrLoop n j pool a = swrLoop n j pool b → a = b := by
+  intro a
+  induction a with
+  | nil => intro b j pool _ hl _ _ _ _; cases b with
+    | nil => rfl
+    | cons _ _ => simp at hl
+  | cons x a ih =>
+    intro b j pool hinv hl hlen ha hb he
+    cases b with
+    | nil => simp at hl
+    | cons y b =>
+      have hL : 0 < n - j := by simp at hlen; omega
+      have hx : x < n - j := by have := ha 0 (by simp); simpa using this
+      have hy : y < n - j := by have := hb 0 (by simp); simpa using this
+      have he' : pool.getD x 0 = pool.getD y 0 ∧
+          swrLoop n (j + 1) (pool.set x (pool.getD (n - j - 1) 0)) a
+            = swrLoop n (j + 1) (pool.set y (pool.getD (n - j - 1) 0)) b := by
+        simpa [swrLoop] using he
+      have hxy : x = y := hinv.2.2.2 x y hx hy he'.1
+      subst hxy
+      have hinv' : PoolInv n (n - (j + 1)) (pool.set x (pool.getD (n - j - 1) 0)) := by
+        have := poolInv_step n (n - j) pool x hL hx hinv
+        rwa [show n - j - 1 = n - (j + 1) from by omega] at this ⊢
+      have := ih b (j + 1) _ hinv' (by simpa using hl) (by simp at hlen; omega)
+        (by intro t ht
+            have := ha (t + 1) (by simp; omega)
+            simp only [List.getElem_cons_succ] at this
+            rw [show n - (j + 1 + t) = n - (j + (t + 1)) from by omega]; exact this)
+        (by intro t ht
+            have := hb (t + 1) (by simp; omega)
+            simp only [List.getElem_cons_succ] at this
+            rw [show n - (j + 1 + t) = n - (j + (t + 1)) from by omega]; exact this)
+        he'.2
+      rw [this]
+
 end QE.C18
